@@ -66,6 +66,11 @@ func nodeValues(thorough bool) []value {
 	gen.Full(full, "A", 2)
 	addBase("full", full, 2)
 	addBase("sparse", &sbom.Node{Id: "n1", Name: "sparse"}, 1)
+	if thorough {
+		full20 := &sbom.Node{}
+		gen.Full(full20, "W", 20)
+		addBase("full20", full20, 1)
+	}
 	sub := &sbom.Node{Id: "n2", Name: "subsecond"}
 	gen.SetField(sub.ProtoReflect(), sub.ProtoReflect().Descriptor().Fields().ByName("release_date"), 1, "S")
 	gen.SetField(sub.ProtoReflect(), sub.ProtoReflect().Descriptor().Fields().ByName("build_date"), 1, "S")
